@@ -2,13 +2,17 @@
   C12 — dispatch-key identity (`TraitBound: PartialEq / Hash / ToTokens`, model `Key.lean`): property
   theorems. All proofs are in `Lemmas/KeyLemmas.lean`.
 
-  `wfPath p` (executable): `p` has at least one segment, every segment has an identifier, and the last
-  segment has no parenthesized arguments (those hit `unreachable!()` in the code).
+  `cmpPath p` (executable): `p` has at least one segment and its last segment has one of the three argument forms of
+  `syn::PathArguments` — none, angle-bracketed, parenthesized (`Fn(A) -> B`; since /repo 94aac73 compared and hashed by its
+  printed tokens, before that `unreachable!()`). These are exactly the paths with a dispatch key (`C12_key_defined`).
+  `wfPath p` (executable) = `cmpPath p` and every segment has an identifier; every path `syn` produces is `wfPath`.
   Accessors (`Lemmas/KeyLemmas.lean`): `initSegs p` (all segments but the last), `lastIdent p`,
-  `lastArgs p` (generic arguments of the last segment, `[]` when there are none).
+  `lastArgs p` (generic arguments of an angle-bracketed last segment, `[]` otherwise), `lastParen p` (the
+  `PathArguments::Parenthesized` node of the last segment, `none` otherwise).
 
-  All statements hold as posed; `C12_ignores_bindings`, `C12_tokens_strip_only_bindings`,
-  `C12_strip_idempotent` and `C12_hash_of_key` need no well-formedness.
+  All statements hold as posed. `C12_symm`, `C12_trans`, `C12_hash_agrees`, `C12_hash_of_key`, `C12_ignores_bindings`,
+  `C12_tokens_strip_only_bindings`, `C12_strip_idempotent` need no side condition at all; the only theorem with a side
+  condition beyond `cmpPath` is `C12_hash_iff` (`noParenArg`, see there).
 
   Second part (proofs in `Lemmas/ExpandEmit.lean`): what the generators of `Expand.lean` PRINT for a dispatch key —
   the where-clause of the main impl as an exact list (`C12_main_where_clause_emits_tbTokens`, `…_inherent`,
@@ -21,49 +25,72 @@ import DisjointImpls.Lemmas.ExpandEmit
 import DisjointImpls.Props.C17
 namespace DI
 
-/-- on well-formed paths `TraitBound::eq` is equality of keys -/
-theorem C12_eq_iff_key (p q : T) (hp : wfPath p = true) (hq : wfPath q = true) :
-    tbEq p q = .t ↔ keyOf p = keyOf q := by
-  rw [tbEq_eq hp hq, keyOf_eq hp, keyOf_eq hq, Option.some.injEq]
-  by_cases h : keyOf' p = keyOf' q <;> simp [h]
+/-- `TraitBound::eq` is equality of keys, whenever one of the two paths is comparable (all three argument forms,
+    `Fn(A) -> B` included) -/
+theorem C12_eq_iff_key (p q : T) (hp : cmpPath p = true) : tbEq p q = .t ↔ keyOf p = keyOf q := by
+  rw [tbEq_t_iff, keyOf_isSome, hp]
+  simp
 
-/-- never panics on well-formed paths -/
-theorem C12_total (p q : T) (hp : wfPath p = true) (hq : wfPath q = true) :
+/-- … and with no side condition: "equal" exactly when both paths have the same, defined, dispatch key -/
+theorem C12_eq_iff_key_defined (p q : T) : tbEq p q = .t ↔ (keyOf p = keyOf q ∧ (keyOf p).isSome = true) :=
+  tbEq_t_iff p q
+
+/-- the paths with a dispatch key are exactly the comparable ones -/
+theorem C12_key_defined (p : T) : (keyOf p).isSome = cmpPath p := keyOf_isSome p
+
+/-- never panics on comparable paths -/
+theorem C12_total (p q : T) (hp : cmpPath p = true) (hq : cmpPath q = true) :
     tbEq p q = .t ∨ tbEq p q = .f := by
-  rw [tbEq_eq hp hq]
+  rw [tbEq_eq_of_cmp hp hq]
   by_cases h : keyOf' p = keyOf' q <;> simp [h]
 
-theorem C12_refl (p : T) (hp : wfPath p = true) : tbEq p p = .t :=
-  (C12_eq_iff_key p p hp hp).2 rfl
+/-- reflexive exactly on the comparable paths -/
+theorem C12_refl (p : T) (hp : cmpPath p = true) : tbEq p p = .t :=
+  (C12_eq_iff_key p p hp).2 rfl
 
-theorem C12_symm (p q : T) (hp : wfPath p = true) (hq : wfPath q = true) : tbEq p q = tbEq q p := by
-  rw [tbEq_eq hp hq, tbEq_eq hq hp]
-  by_cases h : keyOf' p = keyOf' q
-  · simp [h]
-  · have h' : ¬ keyOf' q = keyOf' p := fun e => h e.symm
-    simp [h, h']
+theorem C12_refl_iff (p : T) : tbEq p p = .t ↔ cmpPath p = true := by
+  rw [tbEq_t_iff, keyOf_isSome]; simp
 
-theorem C12_trans (p q r : T) (hp : wfPath p = true) (hq : wfPath q = true) (hr : wfPath r = true) :
-    tbEq p q = .t → tbEq q r = .t → tbEq p r = .t := by
-  rw [C12_eq_iff_key p q hp hq, C12_eq_iff_key q r hq hr, C12_eq_iff_key p r hp hr]
-  exact Eq.trans
+/-- symmetric, as a three-valued function (a panic one way is a panic the other way) — no side condition -/
+theorem C12_symm (p q : T) : tbEq p q = tbEq q p := tbEq_symm p q
+
+/-- transitive — no side condition -/
+theorem C12_trans (p q r : T) : tbEq p q = .t → tbEq q r = .t → tbEq p r = .t := by
+  rw [tbEq_t_iff, tbEq_t_iff, tbEq_t_iff]
+  rintro ⟨h1, h2⟩ ⟨h3, _⟩
+  exact ⟨h1.trans h3, h2⟩
 
 /-- the hasher is fed a function of the key (no well-formedness needed) -/
 theorem C12_hash_of_key (p q : T) : keyOf p = keyOf q → hashFeed p = hashFeed q := by
   intro h; rw [hashFeed_eq_map, hashFeed_eq_map, h]
 
-/-- `k1 == k2 → hash(k1) == hash(k2)` -/
-theorem C12_hash_agrees (p q : T) (hp : wfPath p = true) (hq : wfPath q = true) :
-    tbEq p q = .t → hashFeed p = hashFeed q :=
-  fun h => C12_hash_of_key p q ((C12_eq_iff_key p q hp hq).1 h)
+/-- `k1 == k2 → hash(k1) == hash(k2)` — no side condition -/
+theorem C12_hash_agrees (p q : T) : tbEq p q = .t → hashFeed p = hashFeed q :=
+  fun h => C12_hash_of_key p q ((tbEq_t_iff p q).1 h).1
 
-/-- the feed determines the key: the hash distinguishes exactly what `eq` distinguishes (before hashing) -/
-theorem C12_hash_iff (p q : T) (hp : wfPath p = true) (hq : wfPath q = true) :
+/-- the feed determines the key: the hash distinguishes exactly what `eq` distinguishes (before hashing).
+    Side condition `noParenArg` (executable, true of every `syn` tree): no generic argument of an angle-bracketed last
+    segment is itself a `PathArguments::Parenthesized` node. It is needed because the code feeds the parenthesized
+    argument list of `Tr(..)` to the hasher exactly as it feeds ONE generic argument of `Tr<..>`
+    (`C12_hash_iff_counterexample`). No `cmpPath` is needed (a path without key has no feed). -/
+theorem C12_hash_iff (p q : T) (hnp : noParenArg p = true) (hnq : noParenArg q = true) :
     hashFeed p = hashFeed q ↔ keyOf p = keyOf q := by
   refine ⟨fun h => ?_, C12_hash_of_key p q⟩
-  rw [hashFeed_eq_map, hashFeed_eq_map, keyOf_eq hp, keyOf_eq hq] at h
-  simp only [Option.map_some, Option.some.injEq] at h
-  rw [keyOf_eq hp, keyOf_eq hq, feedOf_inj h]
+  rw [hashFeed_eq_map, hashFeed_eq_map] at h
+  cases hkp : keyOf p with
+  | none =>
+    cases hkq : keyOf q with
+    | none => rfl
+    | some k => rw [hkp, hkq] at h; cases h
+  | some k =>
+    cases hkq : keyOf q with
+    | none => rw [hkp, hkq] at h; cases h
+    | some k' =>
+      rw [hkp, hkq] at h
+      simp only [Option.map_some, Option.some.injEq] at h
+      obtain ⟨_, rfl⟩ := keyOf_some hkp
+      obtain ⟨_, rfl⟩ := keyOf_some hkq
+      rw [feedOf_inj h (lastParen_eq_of_feed hnp hnq h)]
 
 /-- bindings are ignored: removing the `GenericArgument::AssocType` arguments of the last segment does not
     change the key -/
@@ -89,42 +116,58 @@ theorem C12_tr_forms :
   decide
 end Forms
 
-/-- nothing else is ignored: equal keys mean the same leading segments, the same identifier and the same
-    non-binding arguments in the same order -/
-theorem C12_nothing_else (p q : T) (hp : wfPath p = true) (hq : wfPath q = true) :
+/-- nothing else is ignored: equal keys mean the same leading segments, the same identifier, the same non-binding
+    arguments in the same order and the same parenthesized argument list (output type included) or none on both
+    sides -/
+theorem C12_nothing_else (p q : T) (hp : cmpPath p = true) (hq : cmpPath q = true) :
     keyOf p = keyOf q ↔
-      initSegs p = initSegs q ∧ lastIdent p = lastIdent q ∧ nonAssoc (lastArgs p) = nonAssoc (lastArgs q) := by
-  rw [keyOf_eq hp, keyOf_eq hq, Option.some.injEq]
+      initSegs p = initSegs q ∧ lastIdent p = lastIdent q ∧ nonAssoc (lastArgs p) = nonAssoc (lastArgs q) ∧
+      lastParen p = lastParen q := by
+  rw [keyOf_eq_of_cmp hp, keyOf_eq_of_cmp hq, Option.some.injEq]
   simp only [keyOf', TraitKey.mk.injEq]
 
-/-- the key of a well-formed path, component by component -/
-theorem C12_key_components (p : T) (hp : wfPath p = true) :
-    keyOf p = some ⟨initSegs p, lastIdent p, nonAssoc (lastArgs p)⟩ := keyOf_eq hp
+/-- the key of a comparable path, component by component -/
+theorem C12_key_components (p : T) (hp : cmpPath p = true) :
+    keyOf p = some ⟨initSegs p, lastIdent p, nonAssoc (lastArgs p), lastParen p⟩ := keyOf_eq_of_cmp hp
 
 /-- the printed bound is the user's bound with exactly the bindings removed: same leading segments, same
-    identifier, the arguments of the last segment filtered in order -/
+    identifier, the arguments of the last segment filtered in order, a parenthesized argument list as it is -/
 theorem C12_tokens_parts (p : T) :
     initSegs (tbTokens p) = initSegs p ∧ lastIdent (tbTokens p) = lastIdent p ∧
-    lastArgs (tbTokens p) = nonAssoc (lastArgs p) := stripBindings_parts p
+    lastArgs (tbTokens p) = nonAssoc (lastArgs p) ∧ lastParen (tbTokens p) = lastParen p :=
+  ⟨(stripBindings_parts p).1, (stripBindings_parts p).2.1, (stripBindings_parts p).2.2, lastParen_stripBindings p⟩
 
 theorem C12_tokens_strip_only_bindings (p : T) :
     keyOf (tbTokens p) = keyOf p ∧ nonAssoc (lastArgs (tbTokens p)) = lastArgs (tbTokens p) := by
   refine ⟨keyOf_stripBindings p, ?_⟩
-  rw [(C12_tokens_parts p).2.2, nonAssoc_idem]
+  rw [(C12_tokens_parts p).2.2.1, nonAssoc_idem]
 
-/-- the printed bound is again a well-formed path, equal (as a key) to the bound -/
+/-- the printed bound is again a well-formed path, equal (as a key) to the bound (`Fn(A) -> B` included: it is printed
+    unchanged) -/
 theorem C12_tokens_eq (p : T) (hp : wfPath p = true) : wfPath (tbTokens p) = true ∧ tbEq (tbTokens p) p = .t := by
   have hw : wfPath (tbTokens p) = true := by unfold tbTokens; rw [wfPath_stripBindings, hp]
-  exact ⟨hw, (C12_eq_iff_key _ _ hw hp).2 (keyOf_stripBindings p)⟩
+  exact ⟨hw, (C12_eq_iff_key _ _ (cmpPath_of_wfPath hw)).2 (keyOf_stripBindings p)⟩
+
+/-- the same for paths that are only comparable -/
+theorem C12_tokens_eq_cmp (p : T) (hp : cmpPath p = true) : cmpPath (tbTokens p) = true ∧ tbEq (tbTokens p) p = .t := by
+  have hw : cmpPath (tbTokens p) = true := by unfold tbTokens; rw [cmpPath_stripBindings, hp]
+  exact ⟨hw, (C12_eq_iff_key _ _ hw).2 (keyOf_stripBindings p)⟩
 
 theorem C12_strip_idempotent (p : T) : stripBindings (stripBindings p) = stripBindings p :=
   stripBindings_idem p
 
-/-- outside `wfPath` the comparison panics (parenthesized arguments, no segments) -/
+/-- outside `cmpPath` the comparison panics (`unwrap()` on a path without segments; argument trees that are none of the
+    three `syn::PathArguments` forms — `syn` produces neither), and `Fn()` against `Fn()`, which did panic before
+    /repo 94aac73, is now "equal" -/
 theorem C12_panics_outside :
+    tbEq (.node "Path" [] [.node "IgnL" [] [.node "None" [] []], .node "List" [] []])
+      (.node "Path" [] [.node "IgnL" [] [.node "None" [] []], .node "List" [] []]) = .panic ∧
+    tbEq (.node "Path" [] [.node "IgnL" [] [.node "None" [] []], .node "List" [] [.node "PathSegment" [] [.node "Ident" ["Fn"] [],
+      .node "?" [] []]]]) (.node "Path" [] [.node "IgnL" [] [.node "None" [] []], .node "List" [] [.node "PathSegment" [] [.node "Ident" ["Fn"] [],
+      .node "?" [] []]]]) = .panic ∧
     tbEq (.node "Path" [] [.node "IgnL" [] [.node "None" [] []], .node "List" [] [.node "PathSegment" [] [.node "Ident" ["Fn"] [],
       .node "PathArguments::Parenthesized" [] []]]]) (.node "Path" [] [.node "IgnL" [] [.node "None" [] []], .node "List" [] [.node "PathSegment" [] [.node "Ident" ["Fn"] [],
-      .node "PathArguments::Parenthesized" [] []]]]) = .panic := by decide
+      .node "PathArguments::Parenthesized" [] []]]]) = .t := by decide
 
 /-! ## What the generators print for a dispatch key (last clause of C12)
 
@@ -469,5 +512,137 @@ theorem C12_bound_binder_dropped_counterexample :
       !((genericsParams (XOK.kid m 3)).filterMap paramIdent).contains "a") = true := by
   with_unfolding_all decide
 end EmitExamples
+
+/-! ## Parenthesized arguments (`Fn(A) -> B`), /repo 94aac73
+
+Before the repair every comparison or hash of a bound with parenthesized arguments hit `unreachable!()`; now the
+argument list is compared and hashed as printed. `lastParen p = some x`: the last segment of `p` has the parenthesized
+argument node `x` (inputs and output type); `cmpPath q ∧ lastParen q = none`: the last segment of `q` has no or
+angle-bracketed arguments. -/
+
+/-- **No panic for the three argument forms**: if the last segments of both paths (each with at least one segment) have
+    no, angle-bracketed or parenthesized arguments (`cmpPath`, executable), `TraitBound::eq` answers `true` or `false`
+    in both orders and `TraitBound::hash` feeds the hasher for both; and `cmpPath` is exactly the condition under which a
+    path can be compared with itself. -/
+theorem C12_parenthesized_never_panics (p q : T) (hp : cmpPath p = true) (hq : cmpPath q = true) :
+    tbEq p q ≠ .panic ∧ tbEq q p ≠ .panic ∧ (hashFeed p).isSome = true ∧ (hashFeed q).isSome = true := by
+  have hf : ∀ r, cmpPath r = true → (hashFeed r).isSome = true := by
+    intro r hr; rw [hashFeed_eq_map, Option.isSome_map, keyOf_isSome, hr]
+  refine ⟨?_, ?_, hf p hp, hf q hq⟩
+  · rcases C12_total p q hp hq with h | h <;> rw [h] <;> decide
+  · rcases C12_total q p hq hp with h | h <;> rw [h] <;> decide
+
+theorem C12_never_panics_iff (p : T) : tbEq p p ≠ .panic ↔ cmpPath p = true := by
+  rw [tbEq_self]
+  cases cmpPath p <;> simp
+
+/-- **The identity on parenthesized forms.** For a path `p` whose last segment has the parenthesized arguments `x`:
+    * against a path with parenthesized arguments `y`: equal iff the leading segments, the identifier and the WHOLE
+      argument nodes (inputs and output type) are equal;
+    * against a comparable path with no or angle-bracketed arguments: never equal, in either order (and no panic) —
+      `Fn(u8) -> u8` and `Fn<(u8,), Output = u8>` are different dispatch keys. -/
+theorem C12_parenthesized_identity (p q x : T) (hx : lastParen p = some x) :
+    (∀ y, lastParen q = some y →
+      (tbEq p q = .t ↔ initSegs p = initSegs q ∧ lastIdent p = lastIdent q ∧ x = y)) ∧
+    (cmpPath q = true → lastParen q = none → tbEq p q = .f ∧ tbEq q p = .f) := by
+  have hp := cmpPath_of_lastParen hx
+  constructor
+  · intro y hy
+    have hq := cmpPath_of_lastParen hy
+    rw [C12_eq_iff_key p q hp, C12_nothing_else p q hp hq, lastArgs_nil_of_lastParen hx,
+      lastArgs_nil_of_lastParen hy, hx, hy, Option.some.injEq]
+    simp
+  · intro hq hn
+    have hne : ¬ tbEq p q = .t := by
+      rw [C12_eq_iff_key p q hp, C12_nothing_else p q hp hq, hx, hn]
+      simp
+    have hf : tbEq p q = .f := by
+      rcases C12_total p q hp hq with h | h
+      · exact absurd h hne
+      · exact h
+    exact ⟨hf, by rw [← C12_symm]; exact hf⟩
+
+section ParenForms
+private def pu8 : T := .node "Type::Path" [] [.node "None" [] [], fpath [fseg "u8" (.node "PathArguments::None" [] [])]]
+private def pu16 : T := .node "Type::Path" [] [.node "None" [] [], fpath [fseg "u16" (.node "PathArguments::None" [] [])]]
+/-- `(inputs) -> out` / `(inputs)` as `syn` prints the `PathArguments::Parenthesized` node -/
+private def fparen (inputs : List T) (out : Option T) : T :=
+  .node "PathArguments::Parenthesized" [] [.node "List" [] inputs,
+    (match out with | some t => .node "ReturnType::Type" [] [t] | none => .node "ReturnType::Default" [] [])]
+/-- `Output = u8` -/
+private def outU8 : T := .node "GenericArgument::AssocType" [] [.node "AssocType" [] [.node "Ident" ["Output"] [], .node "None" [] [], pu8]]
+/-- `(u8,)` as a generic argument -/
+private def tupU8 : T := .node "GenericArgument::Type" [] [.node "Type::Tuple" [] [.node "List" [] [pu8]]]
+
+private def fnRet8 : T := fpath [fseg "Fn" (fparen [pu8] (some pu8))]        -- `Fn(u8) -> u8`
+private def fnRet16 : T := fpath [fseg "Fn" (fparen [pu8] (some pu16))]      -- `Fn(u8) -> u16`
+private def fnNoRet : T := fpath [fseg "Fn" (fparen [pu8] none)]             -- `Fn(u8)`
+private def fnAngle : T := fpath [fseg "Fn" (fangle [tupU8, outU8])]         -- `Fn<(u8,), Output = u8>`
+private def fnAngleNoOut : T := fpath [fseg "Fn" (fangle [tupU8])]           -- `Fn<(u8,)>`
+private def fnBare : T := fpath [fseg "Fn" (.node "PathArguments::None" [] [])]  -- `Fn`
+private def opsFnRet8 : T := fpath [fseg "ops" (.node "PathArguments::None" [] []), fseg "Fn" (fparen [pu8] (some pu8))]  -- `ops::Fn(u8) -> u8`
+
+/-- all five forms are well-formed (hence comparable), which is the hypothesis of `C12_parenthesized_never_panics`,
+    `C12_total`, `C12_nothing_else`, …; the parenthesized ones satisfy the hypothesis of `C12_parenthesized_identity`, the
+    other two its second case -/
+example : [fnRet8, fnRet16, fnNoRet, fnAngle, fnBare, opsFnRet8].all (fun p => wfPath p && cmpPath p && noParenArg p) = true ∧
+    lastParen fnRet8 = some (fparen [pu8] (some pu8)) ∧ lastParen fnNoRet = some (fparen [pu8] none) ∧
+    lastParen fnAngle = none ∧ lastParen fnBare = none := by decide
+
+/-- the comparison table of `Fn(u8) -> u8`, `Fn(u8) -> u16`, `Fn(u8)`, `Fn<(u8,), Output = u8>`, `Fn`: a parenthesized
+    form equals only itself (the output type counts, the leading segments count); it differs from the angle-bracketed
+    and the bare form in both orders; the angle-bracketed form still ignores its binding; nothing panics -/
+theorem C12_parenthesized_forms :
+    tbEq fnRet8 fnRet8 = .t ∧ tbEq fnNoRet fnNoRet = .t ∧
+    tbEq fnRet8 fnRet16 = .f ∧ tbEq fnRet16 fnRet8 = .f ∧
+    tbEq fnRet8 fnNoRet = .f ∧ tbEq fnNoRet fnRet8 = .f ∧
+    tbEq fnRet8 fnAngle = .f ∧ tbEq fnAngle fnRet8 = .f ∧
+    tbEq fnRet8 fnBare = .f ∧ tbEq fnBare fnRet8 = .f ∧
+    tbEq fnNoRet fnBare = .f ∧ tbEq fnBare fnNoRet = .f ∧
+    tbEq fnRet8 opsFnRet8 = .f ∧ tbEq opsFnRet8 opsFnRet8 = .t ∧
+    tbEq fnAngle fnAngleNoOut = .t ∧ tbEq fnAngle fnBare = .f := by decide
+
+/-- keys and hasher feeds of the forms: the key of `Fn(u8) -> u8` is `⟨[], Fn, [], some (u8) -> u8⟩`; its feed is the
+    identifier followed by the argument node; different forms have different keys and different feeds; the printed bound
+    of a parenthesized form is the bound itself -/
+theorem C12_parenthesized_keys :
+    keyOf fnRet8 = some ⟨[], some "Fn", [], some (fparen [pu8] (some pu8))⟩ ∧
+    hashFeed fnRet8 = some [Feed.ident (some "Fn"), Feed.arg (fparen [pu8] (some pu8))] ∧
+    keyOf fnRet8 ≠ keyOf fnRet16 ∧ keyOf fnRet8 ≠ keyOf fnNoRet ∧ keyOf fnRet8 ≠ keyOf fnAngle ∧
+    keyOf fnRet8 ≠ keyOf fnBare ∧ keyOf fnNoRet ≠ keyOf fnBare ∧
+    hashFeed fnRet8 ≠ hashFeed fnRet16 ∧ hashFeed fnRet8 ≠ hashFeed fnAngle ∧ hashFeed fnNoRet ≠ hashFeed fnBare ∧
+    tbTokens fnRet8 = fnRet8 ∧ tbTokens fnAngle = fnAngleNoOut := by decide
+
+/-- `noParenArg` cannot be dropped from `C12_hash_iff` (in the model): the — ill-formed for `syn` — path `Tr<X>` whose ONE
+    generic argument `X` is the parenthesized-arguments node `(u8)` and the path `Tr(u8)` are both `wfPath`, have
+    different keys, compare unequal, and feed the hasher identically (identifier, then `X`). This does not break
+    `k1 == k2 → hash(k1) == hash(k2)` (`C12_hash_agrees`). The real code has the analogous, equally harmless
+    coincidence on `syn` trees: `Tr<(u8)>` and `Tr(u8)` both feed the identifier and the token string `(u8)`. -/
+theorem C12_hash_iff_counterexample :
+    let pA := fpath [fseg "Tr" (fangle [fparen [pu8] none])]
+    let pP := fpath [fseg "Tr" (fparen [pu8] none)]
+    wfPath pA = true ∧ wfPath pP = true ∧ noParenArg pA = false ∧ noParenArg pP = true ∧
+    hashFeed pA = hashFeed pP ∧ keyOf pA ≠ keyOf pP ∧ tbEq pA pP = .f ∧ tbEq pP pA = .f := by decide
+
+open Ex11 in
+/-- `impl<T: Dispatch<Group = g> + Fn(u8) -> u8> Kita for T {}` -/
+private def blockFn (g : String) : T :=
+  implOf [tyParam "T" [traitBound (dispatch g), traitBound fnRet8]] (Ex11.tyPath [Ex11.seg "T"])
+
+set_option maxRecDepth 1000000 in
+/-- regression witness of the repaired defect D47 (/repo 94aac73) at the level of the whole grouping: two blocks
+    `impl<T: Dispatch<Group = g> + Fn(u8) -> u8> Kita for T {}` (`g = GroupA / GroupB`) — before the repair hashing the
+    bound `Fn(u8) -> u8` panicked. Now the input is un-nested and well-formed in the sense of C05 (`flatWF0`, which asks
+    `wfPath` of every bound, `Fn(u8) -> u8` included), it is accepted with one family of two members, the only dispatch
+    key that survives pruning is `_ŠČ0: Dispatch<Group = …>` (the `Fn` bound binds nothing), both generators succeed
+    and the exact where-clause checker accepts the main impl. -/
+theorem C12_parenthesized_bound_accepted :
+    (noNesting [blockFn "GroupA", blockFn "GroupB"] && flatWF0 [blockFn "GroupA", blockFn "GroupB"] &&
+     (mkBlk (blockFn "GroupA")).raw.any (fun rb => lastParen rb.tr != none) &&
+     ExOK.checkFirst [blockFn "GroupA", blockFn "GroupB"] (fun g hs m =>
+       g.2.2.length == 2 && hs.length == 2 && g.2.1.idents.length == 1 && keysProper_em g.2.1 &&
+       mainWhereExact_em (some ExOK.kitaTrait) 0 g m && helperRowsExact_em g hs)) = true := by
+  with_unfolding_all decide
+end ParenForms
 
 end DI
